@@ -180,7 +180,9 @@ def parse_result(out, rc, timed_out):
     if m:
         r['covers'] = (int(m.group(1)), int(m.group(2)))
     r['failed_checks'] = [x.strip() for x in RE_FAILED.findall(out)]
-    if 'VERIFICATION:- SUCCESSFUL' in out:
+    if 'is not currently supported by Kani' in out and 'VERIFICATION:- SUCCESSFUL' not in out:
+        r['status'] = 'unsupported'
+    elif 'VERIFICATION:- SUCCESSFUL' in out:
         if r['covers'] and r['covers'][0] != r['covers'][1]:
             r['status'] = 'cover-lost'
         else:
